@@ -61,9 +61,15 @@ class StrictMove:
             context._added_indices = np.hstack((context._added_indices, idx)).astype(int)
             context._added_atoms += atoms[idx]
             context.particle_delta += 1
-        elif okb and p["effect"] == "cell":
+        elif okb and p["effect"] in ("cell", "shear"):
             atoms = context.atoms
-            atoms.set_cell(np.asarray(atoms.cell.array) * 1.25 if p["V"].mode != "sym" else atoms.cell.array * 1.25, scale_atoms=True)
+            c = np.array(atoms.cell.array, dtype=object if p["V"].mode == "sym" else float)
+            if p["effect"] == "shear":
+                c = c.copy()
+                c[1, 0] = c[1, 0] + 0.375  # volume-preserving change of shape
+                atoms.set_cell(c, scale_atoms=False)
+            else:
+                atoms.set_cell(c * 1.25, scale_atoms=True)
         elif okb and p["effect"] == "displace":
             atoms = context.atoms
             pos = atoms.get_positions()
@@ -128,8 +134,8 @@ def _driver(V, name, atoms, exch):
     return mcsim.make_driver(V, name, atoms, exchange=exch, nexch=0)
 
 
-def sc_driver(V, driver="Canonical", with_shipped=False, trials=2):
-    info = f"{driver}:shipped={with_shipped}"
+def sc_driver(V, driver="Canonical", with_shipped=False, trials=2, effect=None):
+    info = f"{driver}:shipped={with_shipped}:effect={effect}"
     atoms = mcsim.make_atoms(V, 2, momenta=(driver == "HamiltonianCanonical"), extras=False)
     pes = mcsim.PES(V)
     atoms.calc = mcsim.ModelCalc("caching", pes)
@@ -137,7 +143,7 @@ def sc_driver(V, driver="Canonical", with_shipped=False, trials=2):
     mc = _driver(V, driver, atoms, exch)
     mcsim.install_rng(mc, mcsim.make_rng(V))
     log = []
-    mv = StrictMove(V, EFFECT[driver], log)
+    mv = StrictMove(V, effect or EFFECT[driver], log)
     cr = StrictCriteria(V, log)
     try:
         mc.add_move(mv, cr, name="user")
@@ -188,7 +194,9 @@ def sc_driver(V, driver="Canonical", with_shipped=False, trials=2):
     ms = d.get("moves", {}).get("user", {})
     V.prove(ms.get("kwargs", {}).get("move") == {"name": "StrictMove", "kwargs": {"marker": 42}} and ms.get("kwargs", {}).get("criteria") == {"name": "StrictCriteria", "kwargs": {"marker": 7}}, "serialized-with-the-simulation", info=info)
     # notifications
-    eff = EFFECT[driver]
+    eff = effect or EFFECT[driver]
+    if eff == "shear":
+        eff = "cell"
     acc = [h is True for h in hist]
     if eff == "insert":
         want = []
@@ -220,6 +228,8 @@ def _plan(tier):
     P = []
     for d in ("MonteCarlo", "Canonical", "HamiltonianCanonical", "Isobaric", "Isotension", "GrandCanonical"):
         P.append(("driver", dict(driver=d, with_shipped=(d in ("Canonical", "GrandCanonical", "Isobaric")), trials=2), ()))
+    P.append(("driver", dict(driver="Isobaric", with_shipped=False, trials=2, effect="shear"), ()))
+    P.append(("driver", dict(driver="Isotension", with_shipped=True, trials=2, effect="shear"), ()))
     if tier != "quick":
         for d in ("Isobaric", "GrandCanonical", "Canonical"):
             P.append(("driver", dict(driver=d, with_shipped=False, trials=3), ()))
